@@ -1086,6 +1086,18 @@ func runC20(c *core.Ctx) {
 				}
 			}
 		}
+		if w.Hist == 5 || (c.Thorough() && w.Hist%400 == 5) {
+			// one file beyond 1 MiB: ten values of 125 KB under different keys (a single argument may be 128 KiB long),
+			// then one more write: every value must still be there, complete
+			for i := 0; i < 10; i++ {
+				k.goit("config", fmt.Sprintf("big.k%d", i), strings.Repeat(string(rune('a'+i)), 125000))
+			}
+			k.goit("config", "core.editor", "vi")
+			k.goit("config", "user.name", "After The Big File")
+			k.goit("config", "user.email", "big@example.com")
+			commitTry()
+			c.Count("scale.config-file-beyond-1MiB")
+		}
 		if w.Hist == 3 || (c.Thorough() && w.Hist%400 == 3) {
 			// several hundred keys in a few sections, then rewrites of early ones: no key may be lost on the way
 			for i := 0; i < 270; i++ {
